@@ -6,6 +6,10 @@ ids = [p['id'] for p in props]
 
 # id -> (level, technique, text, note)
 CLAIMED = {
+ "C16": ("exploration", "twin execution (in-memory indexes vs memory_budget=0 SpillToDisk) with statement-outcome, probe-result and structural (index entry set via verif_dump) comparison",
+         "The same DML history runs on both databases; every outcome, 17 index-served probes and the complete (key -> row ids) content of every index are compared; the backend of each index is read back and counted.",
+         "The disk-backed branch is reached through the memory budget, not the 100k-row threshold."),
+
  "C24": ("exploration", "catch_unwind panic monitor + exact i128 arithmetic model + usability probe after every statement, over boundary-value and hostile statements",
          "Sessions of boundary-value integer expressions, aggregates and 26 hostile statement families plus generated multi-table queries with boundary literals; panics, integer results differing from the exact value, and a database that stops answering are violations.",
          "Built with overflow checks: a wrap shows as a panic. Results of hostile string/cast families are not modelled."),
